@@ -197,6 +197,11 @@ impl UnixTerminal {
         #[cfg(feature = "verif-hooks")]
         self.verif_c17_dispose("frames_drop");
 
+        // stop listening for signals and forget those nobody has seen yet: a pending
+        // termination signal must not cut the delivery of the epilogue short
+        self.signal_delivery.handle().close();
+        self.signal_delivery.pending().for_each(drop);
+
         // flush currently queued output and submit the epilogue
         self.execute_many([
             TerminalCommand::Face(Default::default()),
